@@ -103,34 +103,44 @@ func (e *Engine) translate(u *Unit) {
 				for _, lf := range leavesOf(pv.Root) {
 					u.Watch = append(u.Watch, watch{p.Name() + lf.suffix, x.readLoc(x.old, x.locOf(pv, lf))})
 				}
+				// the object a non-nil pointer parameter points to is well typed on entry
+				x.assumeTypeInv(x.loadIn(x.old, pv), not(eq(pv.Base, tZero)))
 			}
 		}
 	}
-	x.cover("cover", "pre", nil, tTrue, "precondition is satisfiable")
-	res := x.run(fn, args, bindings, true)
-	exit := x.st
-	x.cover("cover", "return", nil, tTrue, "some return is reachable")
-	// ghost assignments at exit
-	for _, c := range u.contracts() {
-		env := x.unitEnv(fr0, c, exit)
-		x.bindResult(env, res)
-		for _, cl := range c.clauses("ghost") {
-			lhs, rhs := splitGhost(cl)
-			p := x.evalAddr(env, parseExpr(lhs, cl.Where))
-			v := x.evalExpr(env, parseExpr(rhs, cl.Where))
-			x.storeTo(p, x.coerceTo(v, pointeeType(p)))
-		}
-	}
-	for _, c := range u.contracts() {
-		env := x.unitEnv(fr0, c, x.st)
-		x.bindResult(env, res)
-		for _, cl := range c.clauses("ensures") {
-			x.oblige("post", cl.Label, clauseProps(cl, c), x.evalBool(env, cl.expr()), cl.Text)
-		}
-	}
 	if len(u.contracts()) > 0 {
-		x.frameCheck(u, fr0)
+		x.frameSetup(u, fr0)
 	}
+	x.cover("cover", "pre", nil, tTrue, "precondition is satisfiable")
+	x.retHook = func(res Val) {
+		saved := x.st
+		x.st = x.st.clone()
+		// ghost assignments at exit
+		for _, c := range u.contracts() {
+			env := x.unitEnv(fr0, c, x.st)
+			x.bindResult(env, res)
+			for _, cl := range c.clauses("ghost") {
+				lhs, rhs := splitGhost(cl)
+				p := x.evalAddr(env, parseExpr(lhs, cl.Where))
+				v := x.evalExpr(env, parseExpr(rhs, cl.Where))
+				x.storeTo(p, x.coerceTo(v, pointeeType(p)))
+			}
+		}
+		for _, c := range u.contracts() {
+			env := x.unitEnv(fr0, c, x.st)
+			x.bindResult(env, res)
+			for _, cl := range c.clauses("ensures") {
+				x.oblige("post", cl.Label, clauseProps(cl, c), x.evalBool(env, cl.expr()), cl.Text)
+			}
+		}
+		if len(u.contracts()) > 0 {
+			x.frameCheck(u, fr0)
+		}
+		x.st = saved
+	}
+	x.run(fn, args, bindings, true)
+	x.st = &State{guard: tTrue, heap: x.old.heap, alloc: x.old.alloc}
+	x.cover("cover", "return", nil, or(x.retGuards...), "some return is reachable")
 }
 
 func (x *Exec) unitEnv(fr *Frame, c *Contract, st *State) *SpecEnv {
@@ -146,10 +156,10 @@ func (x *Exec) unitEnv(fr *Frame, c *Contract, st *State) *SpecEnv {
 	return env
 }
 
-// frameCheck: every heap entry that differs from the entry state differs only
-// at locations listed in `modifies` (or at objects allocated by the function).
-func (x *Exec) frameCheck(u *Unit, fr *Frame) {
-	allowed := map[string][]lvLoc{}
+// frameSetup computes the locations the unit may modify (evaluated in the entry state).
+func (x *Exec) frameSetup(u *Unit, fr *Frame) {
+	x.frameAllowed = map[string][]lvLoc{}
+	x.frameOn = true
 	var props []string
 	for _, c := range u.contracts() {
 		env := x.unitEnv(fr, c, x.old)
@@ -170,10 +180,11 @@ func (x *Exec) frameCheck(u *Unit, fr *Frame) {
 				continue
 			}
 			if it == "anything" {
+				x.frameOn = false
 				return
 			}
 			for _, l := range x.lvalueLocs(env, parseExpr(it, c.Where)) {
-				allowed[l.loc.key] = append(allowed[l.loc.key], l)
+				x.frameAllowed[l.loc.key] = append(x.frameAllowed[l.loc.key], l)
 			}
 		}
 		if len(props) == 0 {
@@ -183,48 +194,65 @@ func (x *Exec) frameCheck(u *Unit, fr *Frame) {
 	if len(props) == 0 {
 		props = safetyProps
 	}
+	x.frameProps = props
+}
+
+// frameGoal: heap entry `key` with current value fin differs from the entry
+// state only at allowed locations or at objects allocated since. nil = no constraint.
+func (x *Exec) frameGoal(k string, fin *Term) *Term {
+	if !x.frameOn {
+		return nil
+	}
+	srt, ok := x.heapSort[k]
+	if !ok {
+		return nil
+	}
+	init := &Term{quoteName("H0" + k), srt}
+	if fin.S == init.S {
+		return nil
+	}
+	allowed := x.frameAllowed[k]
+	alloc0 := x.old.alloc
+	s := string(srt)
+	if !strings.HasPrefix(s, "(Array") {
+		if len(allowed) > 0 {
+			return nil
+		}
+		return eq(fin, init)
+	}
+	r := &Term{"r!f", SInt}
+	conds := []*Term{lt(r, alloc0)}
+	var pts []lvLoc
+	for _, l := range allowed {
+		if len(l.loc.idx) == 1 {
+			conds = append(conds, not(eq(r, l.loc.idx[0])))
+		} else if len(l.loc.idx) == 2 {
+			pts = append(pts, l)
+		}
+	}
+	if len(pts) == 0 {
+		return &Term{"(forall ((r!f Int)) (! (=> " + and(conds...).S + " (= (select " + fin.S + " r!f) (select " + init.S + " r!f))) :pattern ((select " + fin.S + " r!f))))", SBool}
+	}
+	i := &Term{"i!f", SInt}
+	var pc []*Term
+	for _, l := range pts {
+		pc = append(pc, not(and(eq(r, l.loc.idx[0]), eq(i, l.loc.idx[1]))))
+	}
+	return &Term{"(forall ((r!f Int) (i!f Int)) (! (=> " + and(append(conds, pc...)...).S + " (= (select (select " + fin.S + " r!f) i!f) (select (select " + init.S + " r!f) i!f))) :pattern ((select (select " + fin.S + " r!f) i!f))))", SBool}
+}
+
+func (x *Exec) frameCheck(u *Unit, fr *Frame) {
+	if !x.frameOn {
+		return
+	}
 	var keys []string
 	for k := range x.st.heap {
 		keys = append(keys, k)
 	}
 	sort.Strings(keys)
-	alloc0 := x.old.alloc
 	for _, k := range keys {
-		fin := x.st.heap[k]
-		init := &Term{quoteName("H0" + k), x.heapSort[k]}
-		if fin.S == init.S {
-			continue
+		if goal := x.frameGoal(k, x.st.heap[k]); goal != nil {
+			x.oblige("frame", k, x.frameProps, goal, "only listed locations of "+k+" change")
 		}
-		s := string(x.heapSort[k])
-		var goal *Term
-		switch {
-		case !strings.HasPrefix(s, "(Array"):
-			if len(allowed[k]) > 0 {
-				continue
-			}
-			goal = eq(fin, init)
-		default:
-			r := &Term{"r!f", SInt}
-			conds := []*Term{lt(r, alloc0)}
-			var pts []lvLoc
-			for _, l := range allowed[k] {
-				if len(l.loc.idx) == 1 {
-					conds = append(conds, not(eq(r, l.loc.idx[0])))
-				} else if len(l.loc.idx) == 2 {
-					pts = append(pts, l)
-				}
-			}
-			if len(pts) == 0 {
-				goal = &Term{"(forall ((r!f Int)) (=> " + and(conds...).S + " (= (select " + fin.S + " r!f) (select " + init.S + " r!f))))", SBool}
-			} else {
-				i := &Term{"i!f", SInt}
-				var pc []*Term
-				for _, l := range pts {
-					pc = append(pc, not(and(eq(r, l.loc.idx[0]), eq(i, l.loc.idx[1]))))
-				}
-				goal = &Term{"(forall ((r!f Int) (i!f Int)) (=> " + and(append(conds, pc...)...).S + " (= (select (select " + fin.S + " r!f) i!f) (select (select " + init.S + " r!f) i!f))))", SBool}
-			}
-		}
-		x.oblige("frame", k, props, goal, "only listed locations of "+k+" change")
 	}
 }
